@@ -1,4 +1,64 @@
 /-
-  C19 — Hamming predictor, batch independence.  Property theorems only (filled in as proofs land).
+  C19 — the Hamming predictor and batched scoring.  Property theorems only; proofs in `CvProofs/Beam.lean`.
 -/
-import CvModel.Beam
+import CvProofs.Beam
+namespace Cv
+
+/-- the Hamming score is the number of positions where the state differs from the central state -/
+theorem hamming_spec (c s : List Int) (hl : c.length = s.length) :
+    hamming c s = ((List.range c.length).filter fun i => c.getD i 0 != s.getD i 0).length := by
+  exact BW.hamming_spec' c s hl
+
+/-- non-vacuity: equal lengths, two differing positions (1 and 3) -/
+example : ([1, 2, 3, 4] : List Int).length = ([1, 0, 3, 0] : List Int).length ∧
+    hamming [1, 2, 3, 4] [1, 0, 3, 0] = 2 ∧
+    ((List.range 4).filter fun i => ([1, 2, 3, 4] : List Int).getD i 0 != ([1, 0, 3, 0] : List Int).getD i 0)
+      = [1, 3] := by decide
+
+theorem hamming_self (c : List Int) : hamming c c = 0 := by
+  exact BW.hamming_self' c
+
+example : hamming [3, 1, 2] [3, 1, 2] = 0 := by decide
+
+theorem hamming_zero_iff (c s : List Int) (hl : c.length = s.length) : hamming c s = 0 ↔ s = c := by
+  exact BW.hamming_zero_iff' c s hl
+
+/-- non-vacuity: both directions have instances (a non-zero score for a different state of equal length) -/
+example : ([3, 1, 2] : List Int).length = ([3, 2, 1] : List Int).length ∧ hamming [3, 1, 2] [3, 2, 1] = 2 ∧
+    ([3, 2, 1] : List Int) ≠ [3, 1, 2] := by decide
+/-- the equal-length hypothesis is needed: `zip` truncates the longer list -/
+example : hamming [1, 2] [1, 2, 3] = 0 ∧ ([1, 2, 3] : List Int) ≠ [1, 2] := by decide
+
+theorem hamming_le (c s : List Int) : hamming c s ≤ c.length := by
+  exact BW.hamming_le' c s
+
+/-- the bound is attained -/
+example : hamming [1, 2, 3] [0, 0, 0] = ([1, 2, 3] : List Int).length := by decide
+
+/-- scoring is batch-independent: any row-wise predictor, any batch size ≥ 1, same values in the same order -/
+theorem predictBatched_eq {β γ : Type} (f : β → γ) (batchSize : Nat) (hb : 0 < batchSize) (states : List β) :
+    predictBatched (List.map f) batchSize states = states.map f := by
+  exact BW.predictBatched_eq' f batchSize hb states
+
+/-- non-vacuity: 7 states in batches of 3 (three batches of sizes 3, 2, 2), scored by the Hamming heuristic -/
+example : ceilDiv 7 3 = 3 ∧
+    tensorSplit 3 [[0,1],[1,0],[1,1],[0,0],[0,1],[1,1],[1,0]] =
+      [[[0,1],[1,0],[1,1]], [[0,0],[0,1]], [[1,1],[1,0]]] ∧
+    predictBatched (List.map (hamming [0, 1])) 3 [[0,1],[1,0],[1,1],[0,0],[0,1],[1,1],[1,0]] =
+      [0, 2, 1, 1, 0, 1, 2] := by decide
+
+/-- more generally for any predictor that is a monoid morphism for `++` -/
+theorem predictBatched_eq_of_append {β γ : Type} (predict : List β → List γ)
+    (happ : ∀ a b, predict (a ++ b) = predict a ++ predict b) (hnil : predict [] = [])
+    (batchSize : Nat) (hb : 0 < batchSize) (states : List β) :
+    predictBatched predict batchSize states = predict states := by
+  exact BW.predictBatched_eq_of_append' predict happ hnil batchSize hb states
+
+/-- non-vacuity: a predictor that is a morphism for `++` but not a `map` (it drops odd entries) -/
+example : predictBatched (List.filter (fun n : Nat => n % 2 == 0)) 2 [1, 2, 3, 4, 5] = [2, 4] := by decide
+/-- the morphism hypothesis is needed: a predictor that looks at the whole batch (here: its length)
+gives batch-dependent scores -/
+example : predictBatched (fun l : List Nat => l.map fun _ => l.length) 2 [7, 7, 7] = [2, 2, 1] ∧
+    (fun l : List Nat => l.map fun _ => l.length) [7, 7, 7] = [3, 3, 3] := by decide
+
+end Cv
